@@ -304,10 +304,23 @@ def gen_cases(ctx):
     from . import c01_ext4_cases
     cases += c01_ext4_cases.extra_cases(U, seqs)
     if quick:
-        monads = [c for c in cases if c[0] == "M"]
-        dyads = [c for c in cases if c[0] == "D"]
-        rng.shuffle(dyads)
-        cases = monads + dyads[:9000]
+        # all monads; per dyadic verb: every case whose operands are atoms, strings or flat lists of at most 3
+        # members (the core, the same on every seed), plus a seeded sample of the rest up to 900 per verb
+        def small(v):
+            return v is None or v[0] != 'L' or (len(v[1]) <= 3 and all(x[0] != 'L' for x in v[1]))
+        keep, rest = [], {}
+        for c in cases:
+            if c[0] == "M" or (small(c[2]) and small(c[3])):
+                keep.append(c)
+            else:
+                rest.setdefault(c[1], []).append(c)
+        per_verb = {}
+        for c in keep:
+            per_verb[c[1]] = per_verb.get(c[1], 0) + (c[0] == "D")
+        for verb, cs in rest.items():
+            rng.shuffle(cs)
+            keep += cs[:max(0, 900 - per_verb.get(verb, 0))]
+        cases = keep
     return cases
 
 
@@ -576,7 +589,8 @@ def run(ctx):
                 ctx.bump("impl-err-but-real-returns")   # outside the reference: it may accept more
             # the same application with computed (numpy scalar) atoms must give the same value
             ctext = computed_text(c) if ref is not None and real[0] != 'E' else None
-            if ctext is not None and (ar == "M" or nvariants % 4 == 0 or ctx.tier != "quick"):
+            atoms_only = all(o is None or o[0] != 'L' for o in (a, b))
+            if ctext is not None and (ar == "M" or atoms_only or nvariants % 4 == 0 or ctx.tier != "quick"):
                 real2 = real_eval(klong, ctext)
                 ctx.bump("computed-atom-variants")
                 if real2[0] == 'E' or not U.veq(ref, real2):
@@ -587,7 +601,7 @@ def run(ctx):
                 nvariants += 1
             # the same application with its operands BOUND to variables (the expression compiler's path for the
             # atomic verbs), in all three mixes of variable / literal; a verb must not change its operands
-            if ref is not None and real[0] != 'E' and (nbound % 3 == 0 or ctx.tier != "quick"):
+            if ref is not None and real[0] != 'E' and (atoms_only or nbound % 3 == 0 or ctx.tier != "quick"):
                 la, lb = "(" + U.klit(a, False) + ")", (None if b is None else "(" + U.klit(b, False) + ")")
                 klong(f"c01va::{la}")
                 if lb is not None:
